@@ -307,6 +307,23 @@ func (g *gen) block(sc *gScope, lo, hi int) []ref.PStmt {
 	if sc.depth > 0 && g.chance("entryPrint", 30) {
 		out = g.printVisible(sc, out)
 	}
+	if sc.depth > 0 && !sc.boundary && g.budget > 4 {
+		// shadow scenario: re-declare a cursor / function of an outer block first thing in the block
+		if len(sc.visCurs()) > 0 && g.chance("shadowCur", 18) {
+			if d, ok := g.cursorDecl(sc); ok {
+				out = append(out, d)
+				if g.chance("openNow", 70) {
+					o := g.stmt("open")
+					o.Name = d.Name
+					sc.curs[d.Name].open = true
+					out = append(out, o)
+				}
+			}
+		}
+		if len(sc.visFuns()) > 0 && sc.funcDepth < maxFuncDepth && sc.depth < maxBlockDepth-1 && g.budget >= 8 && g.chance("shadowFun", 14) {
+			out = append(out, g.funcStmt(sc)...)
+		}
+	}
 	n := g.intn("n", lo, hi)
 	for i := 0; i < n && g.budget > 0; i++ {
 		ss := g.statement(sc)
@@ -563,7 +580,7 @@ func (g *gen) cursorDecl(sc *gScope) (ref.PStmt, bool) {
 			shadow = append(shadow, n)
 		}
 	}
-	if len(shadow) > 0 && g.chance("cshadow", 60) {
+	if len(shadow) > 0 && g.chance("cshadow", 85) {
 		s.Name = fw.Pick(g.t, "cname", shadow)
 	} else {
 		s.Name = fw.Pick(g.t, "cname", free)
@@ -794,7 +811,7 @@ func (g *gen) funcStmt(sc *gScope) []ref.PStmt {
 		return []ref.PStmt{g.fallback(sc)}
 	}
 	s := g.stmt("func")
-	if len(shadow) > 0 && g.chance("fshadow", 60) {
+	if len(shadow) > 0 && g.chance("fshadow", 85) {
 		s.Name = fw.Pick(g.t, "fname", shadow)
 	} else {
 		s.Name = fw.Pick(g.t, "fname", free)
@@ -1077,7 +1094,7 @@ func compare(prog []ref.PStmt, text string, want ref.PResult, got observed) *fw.
 }
 
 func execProgram(dir, text string, cpu int, capture bool) (run.Res, string, error) {
-	ctx, cancel := context.WithTimeout(context.Background(), 20*time.Second)
+	ctx, cancel := context.WithTimeout(context.Background(), 10*time.Second)
 	defer cancel()
 	s, err := run.NewSess(run.Opt{Dir: dir, CaptureOut: capture, CPU: cpu, Ctx: ctx})
 	if err != nil {
@@ -1179,7 +1196,7 @@ func checkProg(c progCase) (fw.Outcome, *fw.Violation) {
 
 func TestC15Procedure(t *testing.T) {
 	fw.Run(t, fw.Spec[progCase]{
-		ID: "C15", Name: "procedure", Quick: 40000, Thorough: 800000,
+		ID: "C15", Name: "procedure", Quick: 100000, Thorough: 2000000,
 		Gen: genProg, Check: checkProg,
 		Rule: "procedures of <=40 statements, block depth <=5, nesting IF/ELSEIF/ELSE, CASE (both forms), counter-bounded WHILE, WHILE..IN cursor loops, BREAK/CONTINUE/RETURN/EXIT, (nested, recursive factorial/fibonacci-shaped) scalar functions and calls, with variables, cursors, temporary tables and functions (re)declared under names from 3-name pools at every level; executed in-process and compared (PRINT lines, terminating error class, EXIT flow) with an environment-stack reference interpreter; non-trivial = an outer object is used again after the block that shadowed it ended, or a recursion depth >= 2; distinct by block tree + name pattern",
 		Assumptions: []string{
@@ -1348,9 +1365,9 @@ func checkConc(c concCase) (fw.Outcome, *fw.Violation) {
 
 func TestC15Concurrent(t *testing.T) {
 	fw.Run(t, fw.Spec[concCase]{
-		ID: "C15", Name: "concurrent", Quick: 1600, Thorough: 32000,
+		ID: "C15", Name: "concurrent", Quick: 8000, Thorough: 160000,
 		Gen: genConc, Check: checkConc,
-		Rule: "1-3 generated scalar functions (locals, nested blocks and loops, local cursors/tables/functions, recursion; no PRINT) declared beside top-level variables of the same names, then SELECT id, n, f(n) FROM a 160-320 row CSV with CPU 4 so that invocations run concurrently; every row's value must equal the reference interpreter's f(n); non-trivial = recursion depth >= 2 or an outer object used after its shadowing block ended; distinct by function shapes + argument set",
+		Rule: "1-3 generated scalar functions (locals, nested blocks and loops, local cursors/tables/functions, recursion; no PRINT) declared beside top-level variables of the same names, then SELECT id, n, f(INTEGER(n)) FROM a 160-320 row CSV (n in 0..6) with CPU 4 so that invocations run concurrently; every row's value must equal the reference interpreter's f(n); non-trivial = recursion depth >= 2 or an outer object used after its shadowing block ended; distinct by function shapes + argument set",
 		Assumptions: []string{
 			"same closedness / discard rules as the procedure check; functions that PRINT are not generated here because their interleaving is unordered",
 		},
